@@ -55,6 +55,15 @@ func (c04) Gen(r *hx.Run) {
 		fmt.Sprintf("4 3 P3:0 s%s:31 s%s:32 F3 g%s g%s W g%s g%s s%s:33 g%s", a, b, b, a, a, b, a, a),
 		fmt.Sprintf("4 3 s%s:31 G%s:1 i%sn V%sn i%sn N%s i%sn", a, a, a, a, a, a, a),
 	}
+	c := kb[2][0]
+	basic = append(basic,
+		// three redirections for one command: stale table → a node with a lagging view → the owner, which is migrating the slot
+		fmt.Sprintf("4 3 O%s:2 Y%s:0:1 G%s:3 g%s s%s:31 g%s N%s W g%s", a, a, a, a, a, a, a, a),
+		fmt.Sprintf("4 3 s%s:31 O%s:2 Y%s:0:1 G%s:3 V%s g%s a%s:32 g%s", a, a, a, a, a, a, a, a),
+		// a redirected command while the target's connection carries other traffic whose replies are still outstanding
+		fmt.Sprintf("4 3 s%s:32 s%s:35 G%s:1 D1:60 { g%s g%s s%s:33 g%s g%s } D1:0 g%s g%s", b, c, a, b, a, a, b, a, a, b),
+		fmt.Sprintf("4 3 s%s:32 G%s:1 D1:40 D0:10 { s%s:31 g%s s%s:34 g%s g%s } g%s", b, a, a, b, a, a, b, a),
+	)
 	for _, s := range basic {
 		r.Do("c04.cl "+s, true, "basic")
 	}
